@@ -100,12 +100,12 @@ def runStep : Step → P
   | .setSizeCheck => fun c s =>
     if (s.sz : Int) ≠ c.setSize then (.error (.other "message set size mismatch"), s) else (.ok c, s)
   | .abortedTxs => fun c s =>
-    -- readArrayLen; -1 → nil; else make([]AbortedTransaction, n) (panics for n < -1) and n × read(struct{int64;int64})
+    -- readArrayLen; -1 → nil; a count < -1 or > remain/16 is rejected; else n × read(struct{int64;int64})
     match readInt 4 s with
     | (.error e, s') => (.error e, s')
     | (.ok n, s') =>
       if n = -1 then (.ok c, s')
-      else if n < 0 then (.error (.panic "makeslice: len out of range"), s')
+      else if n < 0 then (.error .shortRead, s')   -- rejected with a wrapped errShortRead since the count is bounded (was: makeslice panic)
       else iter n.toNat (fun c s => match readInt 8 s with
                                     | (.error e, s') => (.error e, s')
                                     | (.ok _, s') => lift (readInt 8) (fun c _ => c) c s') c s'
